@@ -350,6 +350,23 @@ def _worker(job):
                     r["leaves"] = lv
                 else:
                     r["ntrees"] = len(res)
+                    # trees whose consecutive leaves do not overlap (a tree with overlapping leaves is not
+                    # a tokenization at all: that is C01's subject, KF-C01-glr-invalid-tree-overlap)
+                    if r["ntrees"] <= 200:
+                        nov = 0
+                        for ti in range(r["ntrees"]):
+                            spans = []
+
+                            def lgo(n):
+                                if n.is_term():
+                                    spans.append((n.start_position, n.end_position))
+                                else:
+                                    for ch in n.children:
+                                        lgo(ch)
+                            lgo(res[ti])
+                            if all(a[1] <= b[0] for a, b in zip(spans, spans[1:])):
+                                nov += 1
+                        r["ntrees_nonoverlapping"] = nov
             except parglare.DisambiguationError as e:
                 r["outcome"] = "DisambiguationError"
                 r["dis"] = toks_of(e.tokens)
@@ -687,7 +704,13 @@ def run(ctx):
                 exp = count_tokenizations(allterms, descr, rxm, w, c["lexdis"])
                 got = pr.get("ntrees", 0)
                 st["glr_tree_counts_checked"] += 1
-                if exp != got:
+                if exp != got and pr.get("ntrees_nonoverlapping", got) != got:
+                    # the forest holds trees with overlapping leaves -- invalid trees, with which the driver
+                    # also displaces real derivations (C01/C02: KF-C01-glr-invalid-tree-overlap); the count
+                    # says nothing about which tokens the scanner offered
+                    st["glr_forests_with_overlapping_leaves_left_to_C01"] = \
+                        st.get("glr_forests_with_overlapping_leaves_left_to_C01", 0) + 1
+                elif exp != got:
                     ctx.violation("GLR forest has %d trees; following every documented lookahead token gives %d "
                                   "tokenizations" % (got, exp), base, key="glr-forks")
     cov = {
